@@ -85,6 +85,11 @@ claimed = {
   ref="DESIGN.md §3 C16", note=CR,
   bounds=["call sequences of length 3 (quick) / 4 (thorough) over 12 call kinds, 2 start states", "one contract and one transfer, three wallets"],
   outside=["challenge expiry (no timer fires within a run); concurrent duplicate calls; the static balance request can be replayed by whoever captured a genuine one (observation)", "ledger behaviour (double implementing C03's contract)"]),
+ "C14": dict(
+  text="The real StreamDAG goroutine (real ancestor walker, 100-slot channel) feeds the real LoadDag of a fresh book for EVERY DAG shape with <=4 (quick) / <=5 (thorough) vertices after genesis and every tip / ancestor iteration order: the target is loaded, holds exactly the peer's vertices, parent links, transaction index and genesis wallet, passes the C03/C09 structure checks, answers balance queries identically (symbolic amounts on chains) and gives the same verdict on a follow-up gossip vertex. Every single corruption of a valid stream (vertex repeated, transaction carried by two vertices, vertex missing, second self-sealed vertex, empty transaction, dangling parent reference, empty stream; every position) leaves the target not loaded with a reported cause.",
+  ref="DESIGN.md §3 C14",
+  bounds=["source: genesis + 4 (quick) / 5 (thorough) vertices, all shapes, map iteration orders of maps with <=3 entries", "corruptions: 7 kinds x every position on all 4-vertex shapes"],
+  outside=["the gRPC transport (C15/C19 cover the receive path and the mapping)", "a truncated source cannot be synced from: known finding", "LoadDag does not verify signatures (honest-peer assumption of the protocol)", "LoadDag racing with admissions"]),
 }
 
 NA_DEFAULT = "check not built yet in this session; see DESIGN.md §6 build order"
